@@ -88,7 +88,7 @@ func writeKeyCertPEM(dir, key, issuer, serial string) (string, string) {
 }
 
 // opensslSign produces a DER signature with the openssl CLI. tool: smime|cms; flags e.g. -nodetach -nosmimecap -nocerts -cades
-func opensslSign(tool string, flags []string, key, issuer, serial string, content []byte) ([]byte, error) {
+func opensslSign(tool string, flags []string, key, issuer, serial string, content []byte, more ...[3]string) ([]byte, error) {
 	dir, err := os.MkdirTemp("", "verif-ossl-")
 	if err != nil {
 		return nil, err
@@ -100,6 +100,11 @@ func opensslSign(tool string, flags []string, key, issuer, serial string, conten
 	out := filepath.Join(dir, "out.der")
 	args := []string{tool, "-sign", "-binary", "-in", in, "-signer", cp, "-inkey", kp, "-outform", "DER", "-md", "sha256", "-out", out}
 	args = append(args, flags...)
+	for _, m := range more {
+		// further signers: one SignedData with several SignerInfos
+		kp2, cp2 := writeKeyCertPEM(dir, m[0], m[1], m[2])
+		args = append(args, "-signer", cp2, "-inkey", kp2)
+	}
 	cmd := exec.Command(opensslBin(), args...)
 	if b, err := cmd.CombinedOutput(); err != nil {
 		return nil, fmt.Errorf("openssl %v: %v: %s", args, err, b)
@@ -576,7 +581,11 @@ func thirdPartySource(sc M) (*p7Source, error) {
 	if str(sc, "shape") == "der" {
 		content = testCert(key, issuer, serial).Raw // content that is itself exactly one DER element
 	}
-	der, err := opensslSign(str(sc, "tool"), flags, key, issuer, serial, content)
+	var more [][3]string
+	if num(sc, "signers") == 2 {
+		more = append(more, [3]string{"k3072", "multi", "big"})
+	}
+	der, err := opensslSign(str(sc, "tool"), flags, key, issuer, serial, content, more...)
 	if err != nil {
 		return nil, err
 	}
@@ -597,7 +606,33 @@ func thirdPartySource(sc M) (*p7Source, error) {
 			}
 		}
 	}
+	if str(sc, "sigshape") == "trailzero" {
+		// a SignedData whose length is a multiple of 8 and whose last octet - the last octet of the RSA signature value - is zero
+		// (what alignment padding looks like): the attached content is sized so that the length fits, then varied until the value ends in 00
+		mk := func(i, pad int) []byte { return append([]byte(fmt.Sprintf("message number %06d", i)), bytes.Repeat([]byte{'p'}, pad)...) }
+		content = mk(0, 0)
+		if der, err = opensslSign(str(sc, "tool"), flags, key, issuer, serial, content); err != nil {
+			return nil, err
+		}
+		pad := (8 - len(der)%8) % 8
+		for i := 1; ; i++ {
+			content = mk(i, pad)
+			if der, err = opensslSign(str(sc, "tool"), flags, key, issuer, serial, content); err != nil {
+				return nil, err
+			}
+			if len(der)%8 == 0 && der[len(der)-1] == 0 {
+				break
+			}
+			if i > 6000 {
+				return nil, fmt.Errorf("no signature ending in a zero octet in 6000 messages (length %d)", len(der))
+			}
+		}
+	}
 	s := &p7Source{name: fmt.Sprintf("openssl %s %v", str(sc, "tool"), flags), der: der, cert: testCert(key, issuer, serial),
 		others: []*x509.Certificate{testCert("k3", "i2", "s2"), testCert("k2", issuer, serial)}, content: content}
+	if len(more) > 0 {
+		// the second signer's certificate takes the place of the unrelated one: it signed, so it must verify as well
+		s.others[0] = testCert(more[0][0], more[0][1], more[0][2])
+	}
 	return s, nil
 }
